@@ -17,13 +17,13 @@ RULE = ('Cases = merge_chain (3-6 thin layers spaced 0.6-2.5x the min-sep, per-i
         'bin); (layers, only when no ceilometer is excluded) for every group whose final ncomp equals the raw number '
         'of mixture components chosen (observed by wrapping ampycloud.layer.best_gmm / ncomp_from_gmm from the '
         'harness: no re-merge happened) all its layers are pairwise at least the min-sep of the group base apart. '
-        'Non-trivial = a group merge happened (a twin run with all MIN_SEP_VALS = 1e-6 has more groups) or a split '
+        'Directed follow-up: when the component bases used inside the layering step (observed by the same spy) are further apart than the reported layer bases, the scene is re-run with MIN_SEP_VALS placed between the two distances and judged by the same clause. Non-trivial = a group merge happened (a twin run with all MIN_SEP_VALS = 1e-6 has more groups) or a split '
         'group satisfies the layer-clause precondition. Distinct by (class, row order, parameters, group/layer codes).')
 ASSUMPTIONS = ['raw mixture count observed through a harness-side wrapper of module attributes looked up at call time',
                'min-sep of a group for the layer clause = bin of the group\'s reported base (exclusion empty there)',
                'crashes of run() are left to C08']
 BUDGET = {'quick': 1300, 'thorough': 25000}
-WEIGHTS = {'merge_chain': 6, 'split_candidate': 9, 'limit_crossing': 3, 'layered': 2, 'ref_window': 1}
+WEIGHTS = {'merge_chain': 6, 'split_candidate': 6, 'double_split': 3, 'tie_split': 5, 'limit_crossing': 3, 'layered': 2, 'ref_window': 1}
 
 
 @st.composite
@@ -58,10 +58,20 @@ class GmmSpy:
 
     def __enter__(self):
         from ampycloud import layer
-        self.layer = layer
+        from ampycloud.utils import utils as autils
+        self.layer, self.autils = layer, autils
         self.calls = []
         self.orig_best, self.orig_ncomp = layer.best_gmm, layer.ncomp_from_gmm
+        self.orig_cbh = autils.calc_base_height
+        self._inside = False
+        self._bases = []
         spy = self
+
+        def calc_base_height(*a, **k):
+            out = spy.orig_cbh(*a, **k)
+            if spy._inside:
+                spy._bases.append(float(out))
+            return out
 
         def best_gmm(*a, **k):
             out = spy.orig_best(*a, **k)
@@ -70,19 +80,26 @@ class GmmSpy:
 
         def ncomp_from_gmm(*a, **k):
             spy._raw = 1
-            out = spy.orig_ncomp(*a, **k)
-            spy.calls.append({'raw': spy._raw, 'final': int(out[0]), 'min_sep': k.get('min_sep')})
+            spy._inside, spy._bases = True, []
+            try:
+                out = spy.orig_ncomp(*a, **k)
+            finally:
+                spy._inside = False
+            spy.calls.append({'raw': spy._raw, 'final': int(out[0]), 'min_sep': k.get('min_sep'),
+                              'comp_bases': sorted(spy._bases)})
             return out
 
         layer.best_gmm, layer.ncomp_from_gmm = best_gmm, ncomp_from_gmm
+        autils.calc_base_height = calc_base_height
         return self
 
     def __exit__(self, *exc):
         self.layer.best_gmm, self.layer.ncomp_from_gmm = self.orig_best, self.orig_ncomp
+        self.autils.calc_base_height = self.orig_cbh
         return False
 
 
-def check(case):
+def check(case, depth=0):
     res = Result()
     order = row_order(case['rows'])
     res.labels = [case['cls'], 'rows-' + order]
@@ -138,6 +155,26 @@ def check(case):
                 eligible += 1
                 need = min(oracles.min_sep_for(g['height_base'], lims, vals))
                 bs = sorted(base_of[l] for l in gl.get(g['cluster_id'], ()))
+                # Directed follow-up: if the component bases the layering decided on are further apart than
+                # the bases finally reported, re-run the same scene with a minimum separation placed between
+                # the two distances. A sound implementation offers no such gap; if one exists, the derived run
+                # is an ordinary case of the property and is judged by the ordinary clause.
+                cs = call.get('comp_bases') or []
+                if depth == 0 and len(cs) == len(bs) and len(bs) >= 2:
+                    gaps = [(bs[i + 1] - bs[i], cs[i + 1] - cs[i]) for i in range(len(bs) - 1)]
+                    cand = [(dr, di) for dr, di in gaps if di - dr > 1e-9 and dr >= 0]
+                    if cand:
+                        dr, di = min(cand)
+                        m = dr + 0.75 * (di - dr)
+                        derived = copy.deepcopy(case)
+                        derived['prms']['MIN_SEP_VALS'] = [m] * len(vals)
+                        sub = check(derived, depth=1)
+                        res.evals += sub.evals
+                        res.labels.append('derived-search')
+                        for f in sub.failures:
+                            if f['clause'] == 'layers':
+                                res.fail('layers', f['sig'] + ' [derived: min-sep placed between decided and reported '
+                                         'distance]', f"MIN_SEP_VALS={m!r}: " + f['detail'])
                 for a, b in zip(bs, bs[1:]):
                     if b - a < need - 1e-9:
                         res.fail('layers', 'split layers closer than the minimum separation'
